@@ -140,9 +140,26 @@ func zzSrvOf(s *http.Server) *zzSrv {
 	return x
 }
 
+// Every proxy that is constructed (zzInjectStartTime runs once per construction) must be served by its own goroutine
+// (`go proxy.forwarder.Serve(proxy.acceptor)`); zzSettle waits for those goroutines, so a constructed proxy that is never
+// served shows up as a deadlock.
+var (
+	zzCreated  int
+	zzSettled  int
+	zzServedCh = make(chan struct{}, 64)
+)
+
 func zzSrvServe(s *http.Server, l net.Listener) error {
 	zzSrvOf(s).ln = l
+	zzServedCh <- struct{}{}
 	return http.ErrServerClosed
+}
+
+func zzSettle() {
+	for zzSettled < zzCreated {
+		<-zzServedCh
+		zzSettled++
+	}
 }
 
 func zzSrvClose(s *http.Server) error {
@@ -199,7 +216,10 @@ type zzWrapped struct{ inner http.Handler }
 
 func (w *zzWrapped) ServeHTTP(rw http.ResponseWriter, r *http.Request) { w.inner.ServeHTTP(rw, r) }
 
-func zzInjectStartTime(p http.Handler) http.Handler { return &zzWrapped{inner: p} }
+func zzInjectStartTime(p http.Handler) http.Handler {
+	zzCreated++
+	return &zzWrapped{inner: p}
+}
 
 // (*httputil.ProxyRequest).SetURL / SetXForwarded: the outgoing request is aimed at the URL it is given.
 func zzSetURL(r *httputil.ProxyRequest, target *url.URL) {
@@ -344,6 +364,13 @@ const (
 	zzTCP  = 1
 )
 
+func zzAlpnName(a int) string {
+	if a == zzTCP {
+		return "tcp"
+	}
+	return "http"
+}
+
 type zzOutcome struct {
 	hostname string
 	alpn     int
@@ -358,7 +385,8 @@ type zzOutcome struct {
 	fwd      route
 }
 
-func zzConnect(c *Client, h string, alpn int) zzOutcome {
+// zzDial runs the real handler for one gateway connection (this is all a racing goroutine does).
+func zzDial(c *Client, h string, alpn int) zzOutcome {
 	o := zzOutcome{hostname: h, alpn: alpn, conn: &zzConn{}}
 	link := &protocol.Link{Hostname: h, Remote: "203.0.113.9:4444"}
 	if alpn == zzTCP {
@@ -367,6 +395,12 @@ func zzConnect(c *Client, h string, alpn int) zzOutcome {
 		link.Alpn = protocol.Link_HTTP
 	}
 	o.err = c.handleIncomingDelegation(context.Background(), link, o.conn)
+	return o
+}
+
+// zzResolve works out, from the recorders, what happened to the connection. Called when nothing else is running.
+func zzResolve(o zzOutcome) zzOutcome {
+	zzSettle()
 	for _, x := range zzHandles {
 		if x.conn == net.Conn(o.conn) {
 			o.handled++
@@ -380,13 +414,9 @@ func zzConnect(c *Client, h string, alpn int) zzOutcome {
 		}
 	}
 	if o.acc != nil {
-		if p, ok := c.proxies.Load(h); ok && p.acceptor == o.acc {
-			o.srv = p.forwarder
-		} else {
-			for _, s := range zzSrvs {
-				if s.ln == net.Listener(o.acc) {
-					o.srv = s.srv
-				}
+		for _, s := range zzSrvs {
+			if s.ln == net.Listener(o.acc) {
+				o.srv = s.srv
 			}
 		}
 		if o.srv != nil {
@@ -396,6 +426,8 @@ func zzConnect(c *Client, h string, alpn int) zzOutcome {
 	}
 	return o
 }
+
+func zzConnect(c *Client, h string, alpn int) zzOutcome { return zzResolve(zzDial(c, h, alpn)) }
 
 // zzFollows: was the connection treated the way configuration cur prescribes? (eager boolean, no assertion)
 func zzFollows(o zzOutcome, cur []Tunnel) bool {
@@ -418,6 +450,7 @@ func zzFollows(o zzOutcome, cur []Tunnel) bool {
 // zzCheckNew: a connection that arrives when no change is in progress must follow cur exactly, on a live proxy.
 func zzCheckNew(o zzOutcome, cur []Tunnel, when string) {
 	rt.Tag("when", when)
+	rt.Tag("alpn", zzAlpnName(o.alpn))
 	t, ok := zzLookup(cur, o.hostname)
 	if !ok {
 		rt.Tag("hostname", "not-configured")
@@ -431,7 +464,6 @@ func zzCheckNew(o zzOutcome, cur []Tunnel, when string) {
 	rt.Assert(o.err == nil, "configured-hostname-accepted")
 	rt.Assert(o.conn.closed == 0, "accepted-connection-not-closed")
 	if o.alpn == zzTCP {
-		rt.Tag("alpn", "tcp")
 		rt.Assert(o.fwds == 1 && o.handled == 0, "tcp-connection-forwarded-once")
 		if o.fwds == 1 {
 			rt.Assert(zzSameRoute(o.fwd, t), "tcp-forwarded-with-current-target-and-options")
@@ -439,7 +471,6 @@ func zzCheckNew(o zzOutcome, cur []Tunnel, when string) {
 		rt.Reach("probe-tcp")
 		return
 	}
-	rt.Tag("alpn", "http")
 	rt.Assert(o.handled == 1 && o.fwds == 0, "http-connection-handed-to-one-proxy")
 	rt.Assert(o.srv != nil, "http-proxy-identifiable")
 	if o.handled == 1 && o.srv != nil {
@@ -452,6 +483,8 @@ func zzCheckNew(o zzOutcome, cur []Tunnel, when string) {
 // zzCheckCache: every cached proxy entry belongs to a configured hostname and forwards the way its tunnel says.
 func zzCheckCache(c *Client, cur []Tunnel, when string) {
 	rt.Tag("when", when)
+	rt.Tag("alpn", "-")
+	rt.Tag("hostname", "-")
 	c.proxies.Range(func(h string, p *httpProxy) bool {
 		t, ok := zzLookup(cur, h)
 		rt.Assert(ok, "no-cached-proxy-for-unconfigured-hostname")
@@ -490,8 +523,14 @@ func zzTunnel(invalidOK bool) Tunnel {
 		rt.Assume(tag == 'h')
 	}
 	t.Target = string([]byte{tag, rt.U8("target-host")})
+	if rt.Bound("nodot") > 0 {
+		rt.Assume(t.Hostname != ".") // spares the fork on "is it a fully qualified name" in every proxy construction
+	}
 	t.Insecure = rt.Bool("insecure")
 	t.ProxyHeaderTimeout = time.Duration(rt.I64("header-timeout"))
+	if rt.Bound("postimeout") > 0 {
+		rt.Assume(t.ProxyHeaderTimeout > 0) // spares the fork on "use the default" in every proxy construction
+	}
 	m := zzModes[rt.Choose("header-mode", rt.Bound("modes"))]
 	t.ProxyHeaderMode = m.mode
 	if m.host != "" {
@@ -586,13 +625,11 @@ func zzChange(c *Client, cur, next []Tunnel, reload bool) []Tunnel {
 
 
 
+// zzProbe: two new connections (raw stream, then HTTP) for one arbitrary hostname.
 func zzProbe(c *Client, cur []Tunnel, when string) {
 	h := string(rt.BytesN("probe-hostname", 1))
-	alpn := zzHTTP
-	if rt.Fork("probe-tcp") {
-		alpn = zzTCP
-	}
-	zzCheckNew(zzConnect(c, h, alpn), cur, when)
+	zzCheckNew(zzConnect(c, h, zzTCP), cur, when)
+	zzCheckNew(zzConnect(c, h, zzHTTP), cur, when)
 }
 
 // ZZ_C44_Step: from any state a history leaves behind (old list, router built or not, any subset of proxies cached),
@@ -622,7 +659,110 @@ func ZZ_C44_Step() {
 	rt.Reach("end")
 }
 
-var _ = sync.WaitGroup{}
+// ZZ_C44_History: K changes in a row from the state start-up leaves behind (configuration file loaded, router
+// empty), with connections in between that leave cached proxies; a cross-check of the inductive step on real histories.
+func ZZ_C44_History() {
+	cur := zzList("file", false)
+	c := zzNewClient(cur)
+	rt.Assert(c.Configuration.validate() == nil, "pre-state-valid")
+	K := rt.Bound("K")
+	for k := 0; k < K; k++ {
+		reload := rt.Fork("reload")
+		next := zzList("new", reload)
+		before := zzSaves
+		cur2 := zzChange(c, cur, next, reload)
+		if !reload {
+			rt.Assert(zzSaves == before+1 && len(zzSaved) == len(next), "rebuild-persists-the-new-list")
+		}
+		if !zzBuilt && reload && !zzValid(next) {
+			continue // refused reload before the first build: still in the start-up state
+		}
+		zzBuilt = true
+		cur = cur2
+		zzCheckCache(c, cur, "after-change")
+		if k == K-1 {
+			break
+		}
+		for i := range cur {
+			if cur[i].Hostname != "" && rt.Fork("connection-between-changes") {
+				zzCheckNew(zzConnect(c, cur[i].Hostname, zzHTTP), cur, "between-changes")
+				rt.Reach("connection-between-changes")
+			}
+		}
+	}
+	if !zzBuilt {
+		return
+	}
+	zzProbe(c, cur, "after-changes")
+	rt.Reach("end")
+}
+
+// ZZ_C44_Race: one goroutine applies a change (RebuildTunnels or doReload) while another handles one incoming
+// connection; every interleaving of the two at their synchronisation points up to the preemption bound.
+func ZZ_C44_Race() {
+	old := zzList("old", false)
+	c := zzNewClient(old)
+	rt.Assert(c.Configuration.validate() == nil, "pre-state-valid")
+	zzBuilt = true
+	c.Configuration.buildRouter()
+	for i := range old {
+		if old[i].Hostname != "" && rt.Fork("proxy-cached") {
+			zzCheckNew(zzConnect(c, old[i].Hostname, zzHTTP), old, "before-change")
+			rt.Reach("pre-cached-proxy")
+		}
+	}
+	reload := rt.Fork("reload")
+	next := zzList("new", false)
+	rh := string(rt.BytesN("racing-hostname", 1))
+	ralpn := zzHTTP
+	if rt.Fork("racing-tcp") {
+		ralpn = zzTCP
+	}
+	if reload {
+		rt.Tag("change", "reload")
+	} else {
+		rt.Tag("change", "rebuild")
+	}
+
+	zzMid.Store(0)
+	var (
+		wg  sync.WaitGroup
+		ro  zzOutcome
+		mid int32
+	)
+	wg.Add(2)
+	go func() {
+		defer wg.Done()
+		zzChange(c, old, next, reload)
+	}()
+	go func() {
+		defer wg.Done()
+		mid = zzMid.Load() // 1: the change had already invalidated proxies / was past its half-way point on arrival
+		ro = zzDial(c, rh, ralpn)
+	}()
+	wg.Wait()
+	ro = zzResolve(ro)
+
+	// the racing connection itself: treated according to the previous or the new configuration, nothing else
+	rt.Tag("when", "during-change")
+	rt.Tag("alpn", zzAlpnName(ralpn))
+	rt.Tag("hostname", "-")
+	rt.Assert(rt.Or(zzFollows(ro, old), zzFollows(ro, next)), "racing-connection-follows-previous-or-new-configuration")
+	_, wasThere := zzLookup(old, rh)
+	_, isThere := zzLookup(next, rh)
+	if mid == 1 {
+		rt.Reach("arrived-mid-change")
+		if wasThere && !isThere {
+			rt.Assert(ro.handled == 0 && ro.fwds == 0, "connection-arriving-mid-change-for-removed-hostname-not-forwarded")
+			rt.Reach("arrived-mid-change-removed-hostname")
+		}
+	}
+
+	// afterwards: the cache and any new connection follow the new configuration
+	zzCheckCache(c, next, "after-race")
+	zzProbe(c, next, "after-race")
+	rt.Reach("end")
+}
 
 // package initialisers the engine cannot run: spec/tun.init#1 fills the ALPN name table through protobuf reflection
 // (not used by the code under test); util's initialiser builds text/template values (reflection) and fatih/color reads
